@@ -14,7 +14,7 @@
 From Coq Require Import List Bool Arith.
 Import ListNotations.
 Require Import PV.Overload.Resolve.
-Require Import PV.Proofs.OverloadResolve PV.Proofs.OverloadUnion.
+Require Import PV.Proofs.OverloadResolve PV.Proofs.OverloadUnion PV.Proofs.OverloadSound.
 
 (* Union-free calls (Any allowed): the parameter-wise loop is the docstring's
    resolver: the first clean match wins, matches due to Any keep looking. *)
@@ -108,3 +108,12 @@ Theorem C08_selected_type_is_common : forall sigs t rs,
   exists r, rs = [r] /\ forall s, In s (considered sigs t) -> os_ret s = r.
 Proof. exact selected_type_is_common. Qed.
 Print Assumptions C08_selected_type_is_common.
+
+(* Any number of union arguments, Any allowed, no guard: an accepted call is
+   sound — every member tuple of the call (one member chosen from each
+   argument) is accepted, cleanly or through Any, by some overload. *)
+Theorem C08_accepted_is_sound : forall sigs args,
+  resolve sigs args <> RErr ->
+  forall t, Forall2 (fun m a => In m a) t args -> exists s, In s sigs /\ accepts s t <> Fail.
+Proof. exact resolve_sound. Qed.
+Print Assumptions C08_accepted_is_sound.
